@@ -351,45 +351,69 @@ def run(ctx):
         return
     H, LB, latches = loops[0]
 
-    # found edge: returns (entry at position, position), never re-enters the loop
-    fr = vb.reachable_from([found_edge], removed={tbi})
-    back = fr & LB - {tbi}
-    back = set(x for x in back if H in vb.reachable_from([x]))
-    ctx.ob('5b candidate-is-returned', 'K1-must-pass', fn, 'no path from a non-zero mask leads back into the loop: the first candidate of a group is returned, not filtered again',
-           H not in fr, 'loop head bb%d reachable from the found edge via %s' % (H, sorted(back)[:6]), vb.loc(tbi))
-    fds = [d for d in tb.defs_of_var(0) if d[0] in fr]
-    pos_ok, pdetail = False, ''
-    if len(fds) == 1 and H not in fr:
+    # found edge: the candidate is read again from the page (which may be a live mapping), re-checked against the target and
+    # returned; a candidate that no longer carries the pattern makes the search resume strictly behind it
+    def position_form(pos):
+        pa, pc = linear(pos)
+        atoms = dict(pa)
+        want_i = atoms.pop(('var', ivar), 0) == 1
+        want_s = atoms.pop(('var', skipvar), 0) == 1
+        rest = list(atoms.items())
+        tz_ok = False
+        if len(rest) == 1 and rest[0][1] == 1:
+            q = strip_casts(rest[0][0])
+            num = None
+            if q[0] == 'bin' and q[1] == 'Div' and strip_casts(q[3]) == K(B):
+                num = strip_casts(q[2])
+            elif q[0] == 'bin' and q[1] == 'Shr' and strip_casts(q[3]) == K(B.bit_length() - 1) and B & (B - 1) == 0:
+                num = strip_casts(q[2])
+            if num is not None and num[0] == 'tz' and strip_casts(norm(num[1])) == strip_casts(norm(cmp_t)):
+                tz_ok = True
+        return want_i and want_s and tz_ok and pc == 0
+
+    fr = vb.reachable_from([found_edge], removed={tbi, H})
+    rechecks = []
+    for bi in sorted(fr):
+        st = switch_test(vb, tb, bi)
+        if st is None:
+            continue
+        d = strip_casts(st[0])
+        if d[0] == 'bin' and d[1] in ('Eq', 'Ne'):
+            for x, y in ((d[2], d[3]), (d[3], d[2])):
+                x, y = strip_casts(norm(x)), merge_shifts(strip_casts(norm(y)))
+                if (x[0] == 'bin' and x[1] == 'Shr' and strip_casts(x[2])[0] == 'mem' and strip_casts(x[2])[1] == page and strip_casts(x[2])[3] == 8
+                        and strip_casts(norm(x[3])) == cnt and y == target):
+                    eq_edge, ne_edge = (st[1], st[2]) if d[1] == 'Eq' else (st[2], st[1])
+                    rechecks.append((bi, strip_casts(x[2]), eq_edge, ne_edge))
+    ctx.ob('5b candidate-is-read-again-and-rechecked', 'K3-guard', fn,
+           'after a non-zero mask the entry at the candidate position is read from the page and compared once more with the target (lo32(entry >> shift) == target): the page may be a mapping that the enact stage is writing, and an entry that was not compared must not be handed out',
+           len(rechecks) == 1, 're-check branches after the found edge: %s' % [r[0] for r in rechecks], vb.loc(tbi))
+    if len(rechecks) != 1:
+        return
+    rbi, ent, eq_edge, ne_edge = rechecks[0]
+    ea, ec = linear(ent[2])
+    pos_lin = ({k: v // 8 for k, v in ea.items()}, ec // 8) if all(v % 8 == 0 for v in ea.values()) and ec % 8 == 0 else None
+    # the equal edge returns (that entry, its position) and leaves the loop
+    er = vb.reachable_from([eq_edge], removed={rbi})
+    fds = [d for d in tb.defs_of_var(0) if d[0] in er]
+    pos_ok, pdetail, pos = False, '', None
+    if H in er:
+        pdetail = 'the loop head is reachable from the equal edge of the re-check'
+    elif len(fds) == 1:
         r = strip_casts(fds[0][1])
         if r[0] == 'agg' and len(r[2]) == 2:
-            ent, pos = entry_of(r[2][0]), strip_casts(norm(r[2][1]))
-            pa, pc = linear(pos)
-            atoms = dict(pa)
-            want_i = atoms.pop(('var', ivar), 0) == 1
-            want_s = atoms.pop(('var', skipvar), 0) == 1
-            rest = list(atoms.items())
-            tz_ok = False
-            if len(rest) == 1 and rest[0][1] == 1:
-                q = strip_casts(rest[0][0])
-                num = None
-                if q[0] == 'bin' and q[1] == 'Div' and strip_casts(q[3]) == K(B):
-                    num = strip_casts(q[2])
-                elif q[0] == 'bin' and q[1] == 'Shr' and strip_casts(q[3]) == K(B.bit_length() - 1) and B & (B - 1) == 0:
-                    num = strip_casts(q[2])
-                if num is not None and num[0] == 'tz' and strip_casts(norm(num[1])) == strip_casts(norm(cmp_t)):
-                    tz_ok = True
-            ent_ok = ent[0] == 'mem' and ent[1] == page and ent[3] == 8 and linear(ent[2]) == ({k: 8 * v for k, v in pa.items()}, 8 * pc)
-            pos_ok = want_i and want_s and tz_ok and pc == 0 and ent_ok
-            pdetail = 'position %s ; entry %s' % (show(pos)[:220], show(ent)[:120])
+            rent, pos = entry_of(r[2][0]), strip_casts(norm(r[2][1]))
+            pos_ok = norm(rent) == norm(ent) and linear(pos) == pos_lin and position_form(pos)
+            pdetail = 'position %s ; entry %s' % (show(pos)[:220], show(rent)[:120])
         else:
             pdetail = show(r)[:200]
     else:
-        pdetail = '%d definitions of the return value after the found edge' % len(fds)
+        pdetail = '%d definitions of the return value after the re-check' % len(fds)
     ctx.ob('5c position-from-the-tested-mask', 'K7-bound', fn,
-           'found: returns (entry read at position, position) with position = group + skip + trailing_zeros(tested mask) / bits-per-lane (lowest matching lane first)',
-           pos_ok, pdetail, vb.loc(tbi))
+           'the re-checked entry is the one returned: (entry read at 8*position, position) with position = group + skip + trailing_zeros(tested mask) / bits-per-lane (lowest matching lane first), and the return leaves the loop',
+           pos_ok, pdetail, vb.loc(rbi))
 
-    # ---- loop (premises of L3)
+    # ---- loop (premises of L3): (group, skip) always names the next slot to examine, group + skip
     idefs = tb.defs_of_var(ivar)
     sdefs = tb.defs_of_var(skipvar)
     i_init = [d for d in idefs if d[0] not in LB]
@@ -403,38 +427,82 @@ def run(ctx):
         ok = start is not None and start[0] == 'arg'
     ctx.ob('6b group-start-is-the-start-position-rounded-down', 'K7-bound', fn,
            'before the loop the group index is floor(start / lanes) * lanes of a parameter', ok, '%s' % [show(norm(d[1]))[:120] for d in i_init])
-    ok2 = bool(i_upd) and all(linear(norm(d[1])) == ({('var', ivar): 1}, L) for d in i_upd)
-    ctx.ob('6c group-step-is-the-lane-count', 'K7-bound', fn, 'inside the loop the group index only ever advances by the number of lanes (%d)' % L, ok2,
-           '%s' % [show(norm(d[1]))[:100] for d in i_upd])
-    ok3 = len(s_init) == 1 and start is not None
-    rem = strip_casts(norm(s_init[0][1])) if ok3 else None
-    if ok3 and rem[0] == 'bin' and ((rem[1] == 'BitAnd' and K(L - 1) in (strip_casts(rem[2]), strip_casts(rem[3])) and norm(start) in (strip_casts(rem[2]), strip_casts(rem[3])))
-                                    or (rem[1] == 'Rem' and strip_casts(rem[3]) == K(L) and strip_casts(rem[2]) == norm(start))):
-        pass            # start % lanes spelled directly
-    elif ok3:
-        t = norm(subst_var(s_init[0][1], ivar, i_init[0][1])) if len(i_init) == 1 else s_init[0][1]
+
+    def remainder_of(sterm, iterm, x):
+        """is sterm == x - floor(x / lanes) * lanes, given that iterm is floor(x / lanes) * lanes (or spelled x % lanes directly)?"""
+        rem = strip_casts(norm(sterm))
+        if rem[0] == 'bin' and ((rem[1] == 'BitAnd' and K(L - 1) in (strip_casts(rem[2]), strip_casts(rem[3])) and norm(x) in (strip_casts(rem[2]), strip_casts(rem[3])))
+                                or (rem[1] == 'Rem' and strip_casts(rem[3]) == K(L) and strip_casts(rem[2]) == norm(x))):
+            return True
+        if rem[0] == 'bin' and rem[1] == 'Sub':
+            xa = align_down_of(rem[3], L)
+            if xa is not None and norm(xa) == norm(strip_casts(rem[2])) and linear(norm(xa)) == linear(norm(x)):
+                return True
+        t = norm(subst_var(sterm, ivar, iterm))
         a, c = linear(t)
-        ia, ic = linear(norm(i_init[0][1]))
-        want = {norm(start): 1}
+        ia, ic = linear(norm(iterm))
+        xa, xc = linear(norm(x))
+        want = dict(xa)
         for k, v in ia.items():
             want[k] = want.get(k, 0) - v
-        ok3 = a == {k: v for k, v in want.items() if v} and c == -ic
+        return a == {k: v for k, v in want.items() if v} and c == xc - ic
+
+    ok3 = len(s_init) == 1 and len(i_init) == 1 and start is not None and remainder_of(s_init[0][1], i_init[0][1], start)
     ctx.ob('6d skip-starts-as-the-remainder', 'K7-bound', fn, 'before the loop skip = start - group index (the lanes of the first group that lie before the start position)',
            ok3, '%s' % [show(norm(d[1]))[:120] for d in s_init])
-    ok4 = bool(s_upd) and all(strip_casts(norm(d[1])) == K(0) for d in s_upd)
-    ctx.ob('6e skip-cleared-after-the-first-group', 'K7-bound', fn, 'inside the loop skip is only ever set to zero', ok4, '%s' % [show(norm(d[1]))[:80] for d in s_upd])
-    # every path from the miss edge back to the head passes both updates
+    # updates inside the loop: a step (group += lanes, skip = 0) or a resume behind a candidate (group = floor(x / lanes) * lanes,
+    # skip = x - group, x = position + 1)
+    i_step = [d for d in i_upd if linear(norm(d[1])) == ({('var', ivar): 1}, L)]
+    i_res = [d for d in i_upd if d not in i_step]
+    s_zero = [d for d in s_upd if strip_casts(norm(d[1])) == K(0)]
+    s_res = [d for d in s_upd if d not in s_zero]
+    res_ok, rdetail = True, ''
+    xs = []
+    for d in i_res:
+        x = align_down_of(norm(d[1]), L)
+        if x is None:
+            res_ok, rdetail = False, 'group index set to %s' % show(norm(d[1]))[:160]
+            break
+        xs.append((d[0], norm(x)))
+    if res_ok and pos_lin is not None:
+        for bi, x in xs:
+            xa, xc = linear(x)
+            if (xa, xc) != (pos_lin[0], pos_lin[1] + 1):
+                res_ok, rdetail = False, 'the search resumes at %s, not at position + 1' % show(x)[:160]
+    if res_ok:
+        for d in s_res:
+            mates = [(bi, x, di) for (bi, x), di in zip(xs, i_res) if bi == d[0] or vb.dominates(bi, d[0])]
+            if not mates or not remainder_of(d[1], mates[0][2][1], mates[0][1]):
+                res_ok, rdetail = False, 'skip set to %s' % show(norm(d[1]))[:160]
+        if len(i_res) != len(s_res):
+            res_ok, rdetail = False, '%d resume definitions of the group index, %d of skip' % (len(i_res), len(s_res))
+    ctx.ob('6c group-index-steps-or-resumes-behind-the-candidate', 'K7-bound', fn,
+           'inside the loop the group index only advances by the lane count (%d) or is set to floor((position + 1) / lanes) * lanes' % L, bool(i_step) and res_ok and pos_lin is not None,
+           rdetail or '%s' % [show(norm(d[1]))[:100] for d in i_upd])
+    ctx.ob('6e skip-is-cleared-or-the-remainder-of-the-resume-position', 'K7-bound', fn,
+           'inside the loop skip is only set to zero (with a step) or to (position + 1) - group index (with a resume)', bool(s_zero) and res_ok, rdetail or '%s' % [show(norm(d[1]))[:80] for d in s_upd])
+    # every way back to the loop head updates the pair consistently
     bad = []
-    for name, upd in (('group index', i_upd), ('skip', s_upd)):
+    for name, upd in (('group index', i_step), ('skip', s_zero)):
         blocks = set(d[0] for d in upd)
         if vb.find_path([miss_edge], {H}, removed=blocks, sensitive=False) is not None and miss_edge not in blocks:
-            bad.append(name)
-    ctx.ob('6f every-round-advances', 'K1-must-pass', fn, 'every path from a zero mask back to the loop head advances the group index and clears skip', not bad, 'not updated on some path: %s' % bad)
+            bad.append(name + ' not stepped after a zero mask')
+    for name, upd in (('group index', i_res), ('skip', s_res)):
+        blocks = set(d[0] for d in upd)
+        if vb.find_path([ne_edge], {H}, removed=blocks, sensitive=False) is not None and ne_edge not in blocks:
+            bad.append(name + ' not set to the resume position after a failed re-check')
+    if vb.find_path([ne_edge], {H}, sensitive=False) is None:
+        bad.append('a failed re-check does not go on searching')
+    if any(r in vb.reachable_from([ne_edge], removed={H, rbi}) for r in vb.return_blocks()):
+        bad.append('a failed re-check can return without searching on')
+    ctx.ob('6f every-round-advances', 'K1-must-pass', fn,
+           'every path from a zero mask back to the loop head steps the group and clears skip; every path from a failed re-check back to the loop head sets both to the slot behind the candidate, and there is no other way on from a failed re-check',
+           not bad, '; '.join(bad))
     # continue condition
     conds = []
     for bi in sorted(LB):
         t = vb.term(bi)
-        if t['k'] == 'switch' and any(x not in LB for x in t['ts']) and bi != tbi:
+        if t['k'] == 'switch' and any(x not in LB for x in t['ts']) and bi not in (tbi, rbi):
             conds.append(bi)
     cont_ok, N, cdetail = False, None, ''
     if len(conds) == 1 and vb.dominates(conds[0], tbi):
@@ -460,14 +528,14 @@ def run(ctx):
             cdetail = show(d)[:160]
     else:
         cdetail = 'loop exits: %s' % conds
-    ctx.ob('6g loop-runs-while-a-group-fits', 'K7-bound', fn, 'the only exit of the loop besides a found candidate is group + c > slots with 1 <= c <= lanes, slots a multiple of the lane count', cont_ok, cdetail)
+    ctx.ob('6g loop-runs-while-a-group-fits', 'K7-bound', fn, 'the only exit of the loop besides a returned candidate is group + c > slots with 1 <= c <= lanes, slots a multiple of the lane count', cont_ok, cdetail)
     pb = page_bytes(vb)
     ctx.ob('6h slots-times-entry-size-is-the-page', 'K8-constants', fn, 'slots * 8 equals the byte length of the page array type', N is not None and pb == N * 8, 'slots %s, page bytes %s' % (N, pb))
     # miss: the loop exit answers the empty entry
     xr = set()
     if len(conds) == 1:
         xr = vb.reachable_from([x for x in vb.term(conds[0])['ts'] if x not in LB])
-    mds = [d for d in tb.defs_of_var(0) if d[0] in xr and d[0] not in fr]
+    mds = [d for d in tb.defs_of_var(0) if d[0] in xr and d[0] not in er]
     ok = len(mds) == 1 and entry_of(strip_casts(mds[0][1])[2][0]) == K(0) if mds and strip_casts(mds[0][1])[0] == 'agg' else False
     ctx.ob('6i miss-answers-the-empty-entry', 'K9-agreement', fn, 'leaving the loop without a candidate returns the empty entry', ok, '%s' % [show(d[1])[:100] for d in mds])
 
